@@ -29,7 +29,8 @@ theorem dj_exists (sch : Schema) (db : DB) (hs : SchOk sch) (hd : IdsOk db)
 theorem v3_not_eq_tt (x : V3) : (V3.not x == V3.tt) = (x == V3.ff) := by cases x <;> rfl
 
 /-- Django core: by induction on the fuel (lambda nesting) -/
-theorem dj_core (sch : Schema) (kindOf : Str → Option ColK) (db : DB) (hs : SchOk sch) (hd : IdsOk db) :
+theorem dj_core (sch : Schema) (kindOf : Str → Option ColK) (db : DB) (hs : SchOk sch) (hd : IdsOk db)
+    (hu : KeysOk sch db) :
     ∀ (fuel : Nat) (root : Str) (e : Expr) (f : RCond) (p : Plan),
       lamVarsPlain e = true → elabRAux kindOf [] none e = some f → djPlan sch kindOf fuel root e = .ok p →
       ∀ r, r ∈ db.table root → lambdaClean sch db root r f = true → (evalR sch db root r f).isSome = true →
@@ -135,7 +136,7 @@ theorem dj_core (sch : Schema) (kindOf : Str → Option ColK) (db : DB) (hs : Sc
             | none => simp [hcr] at hdef
             | some tr =>
               obtain ⟨t', rows⟩ := tr
-              obtain ⟨tm, rel, h1, h2, h3, h4, h5⟩ := collRows_some sch db hd root t' r path coll rows hcr
+              obtain ⟨tm, rel, h1, h2, h3, h4, h5⟩ := collRows_some sch db hu root t' r path coll rows hcr
               simp only [Option.map_some, evalDjPlan, hpk]
               rw [dj_exists sch db hs hd root _ back child hrev r pk hr hpk, ← h4]
               cases rows <;> simp
@@ -180,7 +181,7 @@ theorem dj_core (sch : Schema) (kindOf : Str → Option ColK) (db : DB) (hs : Sc
           | none => simp [hcr] at hdef
           | some tr =>
             obtain ⟨t', rows⟩ := tr
-            obtain ⟨tm, rel, h1, h2, h3, h4, h5⟩ := collRows_some sch db hd root t' r path coll rows hcr
+            obtain ⟨tm, rel, h1, h2, h3, h4, h5⟩ := collRows_some sch db hu root t' r path coll rows hcr
             have : t' = child := by rw [htc] at h5; exact (Option.some.inj h5).symm
             subst this
             simp only [hcr] at hdef hc ⊢
@@ -205,7 +206,7 @@ theorem dj_core (sch : Schema) (kindOf : Str → Option ColK) (db : DB) (hs : Sc
           | none => simp [hcr] at hdef
           | some tr =>
             obtain ⟨t', rows⟩ := tr
-            obtain ⟨tm, rel, h1, h2, h3, h4, h5⟩ := collRows_some sch db hd root t' r path coll rows hcr
+            obtain ⟨tm, rel, h1, h2, h3, h4, h5⟩ := collRows_some sch db hu root t' r path coll rows hcr
             have : t' = child := by rw [htc] at h5; exact (Option.some.inj h5).symm
             subst this
             simp only [hcr] at hdef hc ⊢
@@ -265,8 +266,8 @@ theorem navTo_toOneVia (sch : Schema) (db : DB) (t : Str) (ro : Option Row) (p :
     (h : navTo sch db t ro p = some (tm, row)) : toOneVia sch t p = some tm := by
   rw [← navTo_fst sch db t ro p, h]; rfl
 
-/-- SQLAlchemy core: by induction on the fuel (lambda nesting) -/
-theorem sa_core (sch : Schema) (kindOf : Str → Option ColK) (db : DB) (hd : IdsOk db) :
+/-- SQLAlchemy core: by induction on the fuel (lambda nesting); only the uniqueness of referenced keys is needed -/
+theorem sa_core (sch : Schema) (kindOf : Str → Option ColK) (db : DB) (hu : KeysOk sch db) :
     ∀ (fuel : Nat) (root : Str) (e : Expr) (f : RCond) (j : List (List Str)) (p : Plan),
       lamVarsPlain e = true → elabRAux kindOf [] none e = some f → saPlanAux sch kindOf fuel root e = .ok (j, p) →
       ∀ r, lambdaClean sch db root r f = true → (evalR sch db root r f).isSome = true →
@@ -385,7 +386,7 @@ theorem sa_core (sch : Schema) (kindOf : Str → Option ColK) (db : DB) (hd : Id
               | none => simp [hcr] at hdef
               | some tr =>
                 obtain ⟨t', rows⟩ := tr
-                obtain ⟨tm, rel', h1, h2, h3, h4, h5⟩ := collRows_some sch db hd root t' r path coll rows hcr
+                obtain ⟨tm, rel', h1, h2, h3, h4, h5⟩ := collRows_some sch db hu root t' r path coll rows hcr
                 rw [evalSa_exists_none_eq, ← h4]; simp
       | some v body =>
         simp only [lamVarsPlain, lamVarsPlainLam, Bool.and_eq_true, List.isEmpty_iff] at hpl
@@ -439,7 +440,7 @@ theorem sa_core (sch : Schema) (kindOf : Str → Option ColK) (db : DB) (hd : Id
           | none => simp [hcr] at hdef
           | some tr =>
             obtain ⟨t', rows⟩ := tr
-            obtain ⟨tm, rel', h1, h2, h3, h4, h5⟩ := collRows_some sch db hd root t' r path coll rows hcr
+            obtain ⟨tm, rel', h1, h2, h3, h4, h5⟩ := collRows_some sch db hu root t' r path coll rows hcr
             have : tm = tbl := by rw [htm] at h1; exact (Option.some.inj h1).symm
             subst this
             have : rel' = rel := by rw [hrel] at h2; exact (Option.some.inj h2).symm
@@ -464,7 +465,7 @@ theorem sa_core (sch : Schema) (kindOf : Str → Option ColK) (db : DB) (hd : Id
           | none => simp [hcr] at hdef
           | some tr =>
             obtain ⟨t', rows⟩ := tr
-            obtain ⟨tm, rel', h1, h2, h3, h4, h5⟩ := collRows_some sch db hd root t' r path coll rows hcr
+            obtain ⟨tm, rel', h1, h2, h3, h4, h5⟩ := collRows_some sch db hu root t' r path coll rows hcr
             have : tm = tbl := by rw [htm] at h1; exact (Option.some.inj h1).symm
             subst this
             have : rel' = rel := by rw [hrel] at h2; exact (Option.some.inj h2).symm
